@@ -12444,3 +12444,519 @@ class FnTs:
         head = "Definition %s %s%s : %s :=\n%s." % (
             sig["coq"], self.cfg["state"].get("implicit", "") if has_state else "", " ".join(binders), self.ret_type_text(), term)
         return self.loop_defs + [head]
+
+
+# =================================================================================================
+# JSON glue wave, builder B28 (client: lib/gen/json_gen.py — create_structure of duckscript_sdk/src/sdk/std/json/parse/mod.rs,
+# encode_from_state_value / encode_from_state of json/encode/mod.rs and the two `run` functions).  Purely additive: nothing
+# above this line is changed.  The grammar is PColl's (parse_fn_coll / parse_run_coll); the executor FnJson extends FnColl by
+# ONE thing, general `for` loops:
+#
+#   for PAT in ITER { BODY }      BODY is arbitrary code of the FnColl subset: calls with effects (a recursive call that
+#       threads `&mut state`), `if let`, `match`, an early `return e`, panic arms, the out-of-fuel arm of a callee.  The loop
+#       state is the tuple of the cells that exist BEFORE the loop and that some path through BODY assigns (found by a first,
+#       discarded, execution of BODY); PAT is a name or a tuple of names (`for (key, value) in map`: the items are pairs).
+#         - BODY never leaves the function:   let '(c1, .., cn) := for_each_acc (i1, .., in) ITER (fun PAT '(c1, .., cn) => BODY') in REST
+#         - BODY may leave the function:      match for_each_brk (i1, .., in) ITER (fun PAT '(c1, .., cn) => BODY'') with
+#                                             | inl (c1, .., cn) => REST | inr r => r end
+#           where every normal end of BODY'' is `inl (..)` and every `return e` / panic arm / fuel arm is `inr <that result>`
+#       (for_each_acc / for_each_brk: coq/theories/Rs2vJsonLib.v).  A body that assigns nothing is dropped only when it cannot
+#       leave the function either.
+#   Everything else (what a method / path / constructor / macro means, the types, the enum tables) is the configuration's,
+#   exactly as for FnColl.
+class FnJson(FnColl):
+    PANIC_MARK, FUEL_MARK, RET_MARK = "\0JPANIC", "\0JFUEL", "\0JRET"
+
+    def for_(self, s, env, h, k_next, ctx):
+        _, pat, it, body = s
+
+        def k_it(itv, h1):
+            itv = self.cfg["iter"](self, self.deref(itv, h1), h1)
+            ety = itv.ty[1]
+
+            def bind_pat(env0, h0):
+                if isinstance(pat, str):
+                    x = self.fresh(pat)
+                    env2, h2 = self.bind(env0, h0, pat, CollV(ety, x))
+                    return env2, h2, x
+                if not (isinstance(ety, tuple) and ety[0] == "pair" and len(ety) == len(pat) + 1):
+                    raise Rs2vError("for over a tuple pattern of %d names on items of type %r" % (len(pat), ety))
+                xs, env2, h2 = [], env0, h0
+                for n, t in zip(pat, ety[1:]):
+                    x = self.fresh(n)
+                    xs.append(x)
+                    env2, h2 = self.bind(env2, h2, n, CollV(t, x))
+                return env2, h2, "'(%s)" % ", ".join(xs)
+
+            # first execution: which cells does the body assign, can it leave the function
+            leaves = []
+
+            def k1(v, h2):
+                leaves.append(h2)
+                return COLL_HOLE
+            ctx1 = dict(ctx)
+            ctx1["ret"] = lambda v, h2: self.RET_MARK
+            ctx1["panic"], ctx1["fuel"] = self.PANIC_MARK, self.FUEL_MARK
+            env_b, h_b, _x = bind_pat(env, h1)
+            saved_names, saved_cells = dict(self.names), self.ncell
+            t1 = self.block(body, env_b, h_b, k1, ctx1, None)
+            self.names, self.ncell = saved_names, saved_cells
+            leaves_out = any(m in t1 for m in (self.PANIC_MARK, self.FUEL_MARK, self.RET_MARK))
+            changed, new_ty = [], {}
+            for c in h1:
+                for h2 in leaves:
+                    if h2[c] is not h1[c]:
+                        if c not in new_ty:
+                            changed.append(c)
+                            new_ty[c] = h2[c].ty
+                        elif new_ty[c] != h2[c].ty and None not in (new_ty[c] if isinstance(new_ty[c], tuple) else ()):
+                            if None not in (h2[c].ty if isinstance(h2[c].ty, tuple) else ()):
+                                raise Rs2vError("for loop that assigns values of different types to one variable")
+            if not changed and not leaves_out:
+                return k_next(h1)
+            for c in changed:
+                if self.is_ref(h1[c]):
+                    raise Rs2vError("for loop that re-seats a reference")
+
+            # second execution over symbolic accumulators
+            def tup(ts):
+                return ts[0] if len(ts) == 1 else "(%s)" % ", ".join(ts)
+
+            def binder(ts):
+                return ts[0] if len(ts) == 1 else "'(%s)" % ", ".join(ts)
+            env_b, h_b, xb = bind_pat(env, h1)
+            accs = [self.fresh("acc") for _c in changed]
+            for c, a in zip(changed, accs):
+                h_b = self.write(h_b, c, CollV(new_ty[c], a))
+            unit = not changed
+
+            def leaf(h2):
+                return "tt" if unit else tup([h2[c].term for c in changed])
+            ctx2 = dict(ctx)
+            if leaves_out:
+                k2 = lambda v, h2: "inl %s" % leaf(h2)                                   # noqa: E731
+                ctx2["ret"] = lambda v, h2: "inr (%s)" % ctx["ret"](v, h2)
+                ctx2["panic"] = "inr (%s)" % ctx["panic"] if ctx.get("panic") is not None else None
+                ctx2["fuel"] = "inr (%s)" % ctx["fuel"] if ctx.get("fuel") is not None else None
+            else:
+                k2 = lambda v, h2: leaf(h2)                                              # noqa: E731
+            t2 = self.block(body, env_b, h_b, k2, ctx2, None)
+            if any(m in t2 for m in (self.PANIC_MARK, self.FUEL_MARK, self.RET_MARK)) or "None" == ctx2.get("panic", ""):
+                raise Rs2vError("for loop: a panic / fuel arm without a term")
+            init = "tt" if unit else tup([h1[c].term for c in changed])
+            outs = [self.fresh("acc") for _c in changed]
+            h_after = h1
+            for c, o in zip(changed, outs):
+                h_after = self.write(h_after, c, CollV(new_ty[c], o))
+            fun = "(fun %s %s =>\n%s)" % (xb, "_" if unit else binder(accs), cmd_indent(t2, 4))
+            rest = k_next(h_after)
+            if leaves_out:
+                r = self.fresh("r")
+                return self.matchn("for_each_brk %s %s\n  %s" % (init, itv.term, fun),
+                                   [("inl %s" % ("_" if unit else tup(outs)), rest), ("inr %s" % r, r)])
+            return "let %s := for_each_acc %s %s\n  %s in\n%s" % (binder(outs), init, itv.term, fun, rest)
+        return self.ex(it, env, h, k_it, ctx, None)
+
+
+# =================================================================================================
+# Small-natives wave, builder B30 (client: lib/gen/smallnat_gen.py — the generic `end` dispatch, goto, not, eval, noop).
+# Purely additive: nothing above this line is changed.  FnSn is FnTs (typed view of the runtime state, continuation passing,
+# decision trees) plus what these small `run` functions use and FnTs refuses:
+#   * `map.get(&key)` on a dynamic map of ONE scalar StateValue variant (layout "lookup" spelling): an option of that variant
+#     (the `_ =>` arm of a later `match` on the value is dead by the typed-view invariant, as for FnTs' stacks);
+#   * `s.starts_with("lit")` (cfg["starts_with"]), `b.to_string()` on a bool (cfg["bool_to_string"]), `format!("..{}..", a, ..)`
+#     (the text is the concatenation; the value remembers its template: known = ("fmt", template)), `.clone()` of a result;
+#   * `x.f = e;` on a local that is a translation-time struct (("fields", S)), `let (a, _) = call(..)` of a configured callee that
+#     returns a tuple (ty ("tuple",), fields "0", "1", ..), struct literals of the structs listed in cfg["field_structs"]
+#     (exactly the declared fields);
+#   * `match r { CommandResult::Crash(e) => .., _ => .. }` on a result that is only known as a term (cfg["cres_match"] gives
+#     the constructor spelling; the payload is an error CODE: known = ("code", term));
+#   * functions without any state (sig["stateless"]: no state binder; the context's `state` is then not available).
+#   Everything else is FnTs; everything not understood raises Rs2vError.
+class FnSn(FnTs):
+    def of_ty(self, ty, term):
+        if isinstance(ty, tuple) and ty[0] == "sv":
+            vt = self.cfg.get("sv_types", {}).get(ty[1])
+            if vt is None:
+                self.err("a StateValue::%s the typed view does not keep" % ty[1])
+            return TsV(ty, None, None, {"0": TsV(vt, term)})
+        return TsV(ty, term)
+
+    def ex(self, e, E, st, k, ctx):
+        if e[0] == "%val":
+            return k(e[1], E, st)
+        if e[0] == "macro" and e[1] == "format":
+            if not e[2] or e[2][0][0] != "str":
+                self.err("format! without a literal template")
+            tpl = e[2][0][1]
+            parts = tpl.split("{}")
+            if "{" in "".join(parts) or "}" in "".join(parts) or len(parts) != len(e[2]):
+                self.err("format! template %r with %d arguments" % (tpl, len(e[2]) - 1))
+
+            def done(vs, E2, st2):
+                terms = []
+                for i, p in enumerate(parts):
+                    if p:
+                        terms.append(coq_str_lit(p))
+                    if i < len(vs):
+                        if vs[i].ty != "str":
+                            self.err("format! of a %s" % (vs[i].ty,))
+                        terms.append(self.plain(vs[i], "a format! argument"))
+                t = terms[0] if len(terms) == 1 else "(%s)" % " ++ ".join(terms)
+                return k(TsV("str", t, ("fmt", tpl)), E2, st2)
+            return self.exs(list(e[2][1:]), E, st, done, ctx)
+        return FnTs.ex(self, e, E, st, k, ctx)
+
+    def struct_lit(self, path, names, vs):
+        s = path[-1]
+        fs = self.cfg.get("field_structs", {})
+        if s in fs:
+            if sorted(names) != sorted(fs[s]) or len(names) != len(fs[s]):
+                self.err("the literal of %s does not name exactly its fields" % s)
+            return TsV(("fields", s), None, None, dict(zip(names, vs)))
+        return FnTs.struct_lit(self, path, names, vs)
+
+    def stmts(self, items, tail, E, st, k, ctx):
+        if items and items[0][0] == "assign":
+            s, rest = items[0], items[1:]
+            tgt = s[1]
+            if s[2] != "=" or tgt[0] != "field" or tgt[1][0] != "path" or len(tgt[1][1]) != 1 or not E.has(tgt[1][1][0]):
+                self.err("assignment to something that is not a field of a local")
+            n, f = tgt[1][1][0], tgt[2]
+
+            def upd(v, E2, st2):
+                cur = E2.get(n)
+                if not (isinstance(cur.ty, tuple) and cur.ty[0] == "fields") or cur.fields is None or f not in cur.fields:
+                    self.err("assignment to field %s of a %s" % (f, cur.ty))
+                nf = dict(cur.fields)
+                nf[f] = v
+                return self.stmts(rest, tail, E2.set(n, TsV(cur.ty, None, None, nf)), st2, k, ctx)
+            return self.ex(s[3], E, st, upd, ctx)
+        if items and items[0][0] == "lettuple":
+            s, rest = items[0], items[1:]
+
+            def bind(v, E2, st2):
+                if v.ty != ("tuple",) or v.fields is None or len(v.fields) != len(s[1]):
+                    self.err("let (..) = of a %s" % (v.ty,))
+                for i, n in enumerate(s[1]):
+                    if n != "_":
+                        E2 = E2.let(n, v.fields[str(i)])
+                return self.stmts(rest, tail, E2, st2, k, ctx)
+            return self.ex(s[2], E, st, bind, ctx)
+        return FnTs.stmts(self, items, tail, E, st, k, ctx)
+
+    def match_(self, v, arms, E, st, k, ctx):
+        cm = self.cfg.get("cres_match")
+        if v.ty == "cres" and cm and not (len(arms) == 1 and arms[0][0] == ("wild",)):
+            if v.term is None:
+                self.err("match on a result that is not a term")
+            outer = E
+            out, seen, has_wild = [], set(), False
+            for pat, body in arms:
+                def done(x, E3, st3):
+                    return k(x, E3.leave(outer), st3)
+                if pat == ("wild",):
+                    has_wild = True
+                    out.append("| _ =>\n%s" % self.ex(body, E, st, done, ctx))
+                    break
+                if pat[0] != "ctor" or len(pat[1]) != 2 or pat[1][0] != "CommandResult" or pat[1][1] not in cm or pat[1][1] in seen:
+                    self.err("pattern %r on a CommandResult" % (pat,))
+                seen.add(pat[1][1])
+                x = self.fresh((pat[2][0] if pat[2] and pat[2][0] else None) or "e")
+                E2 = self.bind_pat(pat, TsV("err", None, ("code", x)), E)
+                out.append("| %s %s =>\n%s" % (cm[pat[1][1]], x, self.ex(body, E2, st, done, ctx)))
+            if not has_wild:
+                self.err("match on a CommandResult without a `_` arm")
+            return "match %s with\n%s\nend" % (v.term, "\n".join(out))
+        return FnTs.match_(self, v, arms, E, st, k, ctx)
+
+    def mcall(self, e, E, st, k, ctx):
+        recv, m, args = e[1], e[2], e[3]
+        if m not in ("get", "starts_with", "to_string", "clone"):
+            return FnTs.mcall(self, e, E, st, k, ctx)
+
+        def on(v, E2, st2):
+            ty = v.ty
+            if m == "clone" and not args and ty in ("cres", "err"):
+                return k(v, E2, st2)
+            if m == "to_string" and not args and ty == "bool" and "bool_to_string" in self.cfg:
+                return k(TsV("str", self.cfg["bool_to_string"] % self.plain(v, "the bool")), E2, st2)
+            if m == "starts_with" and len(args) == 1 and ty == "str" and "starts_with" in self.cfg:
+                def sw(p, E3, st3):
+                    if p.ty != "str" or not p.known or p.known[0] != "lit":
+                        self.err("starts_with of something that is not a string literal")
+                    return k(TsV("bool", self.cfg["starts_with"] % (p.term, self.plain(v, "the string"))), E3, st3)
+                return self.ex(args[0], E2, st2, sw, ctx)
+            if m == "get" and len(args) == 1 and isinstance(ty, tuple) and ty[0] == "place" and ty[1] in self.cfg["layout"]:
+                nd = self.cfg["layout"][ty[1]]
+                if nd["kind"] == "dynmap" and nd["value"][0] == "variant" and "lookup" in nd:
+                    def get(key, E3, st3):
+                        if key.ty != "str":
+                            self.err("get with a key that is not a string")
+                        t = nd["lookup"] % (self.plain(key, "the key"), st3.comp(self.cfg, nd["comp"]))
+                        return k(TsV(("option", ("sv", nd["value"][1])), t), E3, st3)
+                    return self.ex(args[0], E2, st2, get, ctx)
+            return FnTs.mcall(self, ("mcall", ("%val", v), m, args), E2, st2, k, ctx)
+        return self.ex(recv, E, st, on, ctx)
+
+    def translate(self, params, body, recv_fields=None):
+        sig = self.sig
+        if not sig.get("stateless"):
+            return FnTs.translate(self, params, body, recv_fields)
+        if not sig.get("context"):
+            self.err("a stateless function without a configured context")
+        binders = list(sig.get("pre_binders", []))
+        E = sig["context"](self, params, TsEnv(), binders)
+        ctx = {"st0": "st"}
+        term = self.stmts(body[1], body[2], E, TsSt("st"), lambda v, _E, st2: self.leaf(v, st2, ctx), ctx)
+        if re.search(r"\bst\b", term):
+            self.err("a function configured as stateless reaches the state")
+        return self.loop_defs + ["Definition %s %s : %s :=\n%s." % (sig["coq"], " ".join(binders), self.ret_type_text(), term)]
+
+
+# =================================================================================================
+# File-command wave, builder B29 (client: lib/gen/fs_gen.py — the `run` functions of the file commands of
+# duckscript_sdk/src/sdk/std/fs and the helpers of utils/io.rs -> coq/generated/GenFsFn.v).  Purely additive: nothing above
+# this line is changed.
+#
+#   PFs / parse_fs_run / parse_fs_helper     the PCmd grammar + tuple patterns `(Ok(a), Ok(b))` in match arms
+#   FnFs(FnCmd)    the continuation-passing executor of FnCmd with ONE threaded piece of state, the file tree:
+#     * `self.tree` is the Coq term of the tree at the point being executed.  A configured EFFECT (cfg["effects"]: a callee that
+#       changes the tree and answers Ok(()) / Err(_)) is `let '(ok, t') := <primitive> <tree> in ..` and everything after it is
+#       executed with t'; a configured READ mentions `fn.tree` in its term.  Its result is a value of type ("bres",): a `match`
+#       / `if let` on it is `if ok then <Ok arm> else <Err arm>`.  (Branches are generated one after the other, so the current
+#       tree is restored when a continuation returns: in CPS everything "after" an effect lies inside its continuation.)
+#     * `for i in a..b { .. }` (a, b of type nat) whose body may `return` and may read `<argument vector>[i]` (an explicit panic
+#       arm `match nth_error args i with None => LPanic ..`): `match for_idx (fun i t => BODY) (idx_range a b) <tree> with LPanic
+#       => <panic> | LRet o t' => <return o at t'> | LNext t' => <rest at t'> end` (Rs2vFsLib.v); the body's normal end is LNext.
+#     * `match (A, B) { (Ok(x), Ok(y)) => E1, _ => E2 }` on two pure Result values: nested option matches, E2 in both other arms.
+#     * `match v { StateValue::ByteArray(b) => .., _ => .. }` on a value of a configured enum type (cfg["enums"]).
+#     * char literals (a value that exists only statically), `v[i]` with the loop variable.
+#   What a callee MEANS is the configuration's; everything not understood raises Rs2vError.
+class PFs(PCmd):
+    def pattern(self):
+        if self.at("op", "("):
+            self.i += 1
+            items = []
+            while not self.at("op", ")"):
+                items.append(self.pattern())
+                if not self.opt("op", ","):
+                    break
+            self.eat("op", ")")
+            return ("tuplepat", items)
+        return super().pattern()
+
+
+def parse_fs_run(src, trait="Command", type_name="CommandImpl", name="run"):
+    """`fn run` of `impl Command for CommandImpl { .. }`, PFs grammar -> (receiver, [(param, type text)], body)"""
+    ms = list(re.finditer(r"^\s*impl\s+%s\s+for\s+%s\s*\{" % (re.escape(trait), re.escape(type_name)), src, re.M))
+    if len(ms) != 1:
+        raise Rs2vError("impl %s for %s: %d blocks" % (trait, type_name, len(ms)))
+    body = balanced_block(src, ms[0].end() - 1)
+    fs = list(re.finditer(r"\bfn\s+%s\s*\(" % re.escape(name), body))
+    if len(fs) != 1:
+        raise Rs2vError("fn %s: %d definitions in impl %s for %s" % (name, len(fs), trait, type_name))
+    p = PFs(lex(body[fs[0].start():], stop_after_item=True))
+    _n, params, blk = p.fn()
+    return p.receiver, params, blk
+
+
+def parse_fs_helper(src, name):
+    """a free function of a file, PFs grammar -> ([(param, type text)], return type text, body)"""
+    ms = list(re.finditer(r"^(?:pub(?:\([a-z]+\))?\s+)?fn\s+%s\s*\(" % re.escape(name), src, re.M))
+    if len(ms) != 1:
+        raise Rs2vError("fn %s: %d definitions" % (name, len(ms)))
+    p = PFs(lex(src[ms[0].start():], stop_after_item=True))
+    _n, params, body = p.fn()
+    if p.receiver is not None:
+        raise Rs2vError("fn %s has a receiver" % name)
+    return params, p.ret_type, body
+
+
+class FnFs(FnCmd):
+    """extra cfg keys:
+      tree        Coq term of the tree `run` starts with
+      effects     {rust path string: f(fn, [CmdV], k) -> Coq text}   callees that change the tree (use fn.effect)
+      enums       {ty: {variant name: (Coq constructor, payload ty)}}
+      loop_ret    f(fn, CmdV) -> Coq term of the `out` a `return` inside a loop body carries
+    """
+
+    def __init__(self, cfg):
+        super().__init__(cfg)
+        self.tree = cfg["tree"]
+        self.panic_term = cfg["panic"]
+
+    def panic(self):
+        return self.panic_term
+
+    def effect(self, fterm, k, ty=("bres",)):
+        """let '(ok, t') := fterm <tree> in <everything after, at t'>"""
+        ok, t1 = self.fresh("ok"), self.fresh("t")
+        old = self.tree
+        self.tree = t1
+        try:
+            body = k(CmdV(ty, ok))
+        finally:
+            self.tree = old
+        return "(let '(%s, %s) := %s %s in\n%s)" % (ok, t1, fterm, old, body)
+
+    # ---- expressions
+    def ex(self, e, env, k, ctx, expect=None):
+        if e[0] == "char":
+            return k(CmdV("char", None, lit=e[1]))
+        return super().ex(e, env, k, ctx, expect)
+
+    def call(self, e, env, k, ctx, expect):
+        if e[1][0] == "path":
+            h = self.cfg.get("effects", {}).get("::".join(e[1][1]))
+            if h is not None:
+                return self.seq(e[2], env, lambda vs: h(self, vs, k), ctx)
+        return super().call(e, env, k, ctx, expect)
+
+    def index(self, e, env, k, ctx):
+        ix = e[2]
+        if ix[0] == "path" and len(ix[1]) == 1 and ix[1][0] in env and not ix[1][0].startswith("%") \
+                and isinstance(env[ix[1][0]], CmdV) and env[ix[1][0]].ty == "nat":
+            iv = env[ix[1][0]]
+
+            def k_base(b):
+                if b.term != self.cfg["args_term"]:
+                    raise Rs2vError("indexing other than <argument vector>[<index>]")
+                x = self.fresh("a_" + ix[1][0])
+                return self.match2("nth_error %s %s" % (b.term, iv.term), "None", self.panic(), "Some %s" % x, k(CmdV("str", x)))
+            return self.ex(e[1], env, k_base, ctx, None)
+        return super().index(e, env, k, ctx)
+
+    # ---- match
+    def fs_arm(self, arms, ctor, payload, whole, env, k, ctx, expect):
+        name, body = self.arm_for(arms, ctor)
+        env2 = self.enter(env)
+        if isinstance(name, tuple):
+            self.declare(env2, name[1], whole)
+        elif name is not None:
+            if payload is None:
+                raise Rs2vError("pattern variable %s for a value without a payload" % name)
+            self.declare(env2, name, payload)
+        return self.block(body, env2, k, ctx, expect) if body[0] == "block" else self.ex(body, env2, k, ctx, expect)
+
+    def match(self, e, env, k, ctx, expect):
+        arms = e[2]
+        if e[1][0] == "tuple":
+            return self.match_pair(e, env, k, ctx, expect)
+        if any(p[0] == "tuplepat" for p, _b in arms):
+            raise Rs2vError("tuple pattern on something else than a tuple expression")
+
+        def k_s(v):
+            tag = v.ty[0] if isinstance(v.ty, tuple) else v.ty
+            if tag == "bres" and v.known is None:
+                good = self.fs_arm(arms, "Ok", CmdV("unit"), v, env, k, ctx, expect)
+                bad = self.fs_arm(arms, "Err", CmdV("ioerr"), v, env, k, ctx, expect)
+                return self.ite(v.term, good, bad)
+            if tag in self.cfg.get("enums", {}) and v.known is None:
+                return self.match_enum(v, self.cfg["enums"][tag], arms, env, k, ctx, expect)
+            env2 = dict(env)
+            env2["scrutinee__"] = v
+            return FnCmd.match(self, ("match", ("path", ["scrutinee__"]), arms), env2, k, ctx, expect)
+        return self.ex(e[1], env, k_s, ctx, self.parse_hint(e[1], arms, expect))
+
+    def match_enum(self, v, variants, arms, env, k, ctx, expect):
+        out, seen, closed = [], set(), False
+        for pat, body in arms:
+            if closed:
+                raise Rs2vError("arm after a catch-all arm")
+            env2 = self.enter(env)
+            if pat[0] == "wild":
+                closed = True
+                lhs = "_"
+            elif pat[0] == "ctor" and pat[1][-1] in variants and pat[1][-1] not in seen:
+                coq, pty = variants[pat[1][-1]]
+                seen.add(pat[1][-1])
+                if pty is None:
+                    if pat[2]:
+                        raise Rs2vError("sub-pattern of %s" % pat[1][-1])
+                    lhs = coq
+                else:
+                    if len(pat[2]) != 1:
+                        raise Rs2vError("%s pattern with %d sub-patterns" % (pat[1][-1], len(pat[2])))
+                    if pat[2][0] is None:
+                        lhs = "%s _" % coq
+                    else:
+                        x = self.fresh(pat[2][0])
+                        self.declare(env2, pat[2][0], CmdV(pty, x))
+                        lhs = "%s %s" % (coq, x)
+            else:
+                raise Rs2vError("pattern %r on a value of type %r" % (pat, v.ty))
+            t = self.block(body, env2, k, ctx, expect) if body[0] == "block" else self.ex(body, env2, k, ctx, expect)
+            out.append("| %s =>\n%s" % (lhs, cmd_indent(t, 4)))
+        if not closed and len(seen) != len(variants):
+            raise Rs2vError("match on %r that is not exhaustive" % (v.ty,))
+        return "match %s with\n%s\nend" % (v.term, "\n".join(out))
+
+    def match_pair(self, e, env, k, ctx, expect):
+        """match (A, B) { (Ok(x), Ok(y)) => E1, _ => E2 }  (also Some / Some)"""
+        arms = e[2]
+        if len(e[1][1]) != 2 or len(arms) != 2 or arms[0][0][0] != "tuplepat" or arms[1][0][0] != "wild":
+            raise Rs2vError("match on a tuple of another shape than { (C(x), C(y)) => .., _ => .. }")
+        pats = arms[0][0][1]
+        if len(pats) != 2 or any(p[0] != "ctor" or p[1][-1] not in ("Ok", "Some") or len(p[2]) != 1 for p in pats):
+            raise Rs2vError("tuple pattern of another shape than (Ok(x), Ok(y))")
+
+        def k_ab(vs):
+            for v, p in zip(vs, pats):
+                want = "res" if p[1][-1] == "Ok" else "opt"
+                if not (isinstance(v.ty, tuple) and v.ty[0] == want) or v.known is not None or v.term is None:
+                    raise Rs2vError("tuple match on a component of type %r" % (v.ty,))
+            xs = [self.fresh(p[2][0] or "x") for p in pats]
+            env2 = self.enter(env)
+            for v, p, x in zip(vs, pats, xs):
+                if p[2][0] is not None:
+                    self.declare(env2, p[2][0], CmdV(v.ty[1], x))
+            b1, b2 = arms[0][1], arms[1][1]
+            hit = self.block(b1, env2, k, ctx, expect) if b1[0] == "block" else self.ex(b1, env2, k, ctx, expect)
+            envw = self.enter(env)
+            miss1 = self.block(b2, envw, k, ctx, expect) if b2[0] == "block" else self.ex(b2, envw, k, ctx, expect)
+            miss2 = self.block(b2, envw, k, ctx, expect) if b2[0] == "block" else self.ex(b2, envw, k, ctx, expect)
+            inner = self.match2(vs[1].term, "Some %s" % xs[1], hit, "None", miss1)
+            return self.match2(vs[0].term, "Some %s" % xs[0], inner, "None", miss2)
+        return self.seq(e[1][1], env, k_ab, ctx)
+
+    # ---- statements: the indexed loop
+    def stmts(self, ss, tail, env, k, ctx, expect):
+        if ss and ss[0][0] == "for":
+            return self.for_range(ss[0], ss[1:], tail, env, k, ctx, expect)
+        return super().stmts(ss, tail, env, k, ctx, expect)
+
+    def for_range(self, s, rest, tail, env, k, ctx, expect):
+        _, pat, it, body = s
+
+        def k_it(r):
+            if r.ty != ("range", "nat"):
+                raise Rs2vError("for over %r (only a..b on the argument count is understood)" % (r.ty,))
+            a, b = r.items
+            i, tl = self.fresh(pat), self.fresh("t")
+            env_b = self.enter(env)
+            self.declare(env_b, pat, CmdV("nat", i))
+            old_tree, old_panic = self.tree, self.panic_term
+            self.tree, self.panic_term = tl, "LPanic"
+            bctx = {"ret": lambda v: "LRet %s %s" % (self.cfg["loop_ret"](self, v), self.tree), "ret_type": ctx["ret_type"]}
+
+            def k_end(v):
+                if v.ty != "unit":
+                    raise Rs2vError("loop body ending in a value of type %r" % (v.ty,))
+                return "LNext %s" % self.tree
+            try:
+                body_t = self.block(body, env_b, k_end, bctx, "unit")
+            finally:
+                self.tree, self.panic_term = old_tree, old_panic
+            o, t2, t3 = self.fresh("o"), self.fresh("t"), self.fresh("t")
+            try:
+                self.tree = t2
+                ret_t = ctx["ret"](CmdV("cmdresult", o))
+                self.tree = t3
+                rest_t = self.stmts(rest, tail, env, k, ctx, expect)
+            finally:
+                self.tree = old_tree
+            return ("match for_idx (fun (%s : nat) (%s : tree) =>\n%s) (idx_range %s %s) %s with\n| LPanic =>\n%s\n| LRet %s %s =>\n%s\n"
+                    "| LNext %s =>\n%s\nend" % (i, tl, cmd_indent(body_t, 4), a.term, b.term, old_tree, cmd_indent(self.panic(), 4),
+                                               o, t2, cmd_indent(ret_t, 4), t3, cmd_indent(rest_t, 4)))
+        return self.ex(it, env, k_it, ctx, None)
